@@ -51,7 +51,7 @@ def gen_body(r, t, prof):
         return bytes(r.getrandbits(8) for _ in range(FIXED[t]))
     if t in (33, 35):
         # key version + fingerprint of that version's size; newer (32-octet) and unknown versions are somebody else's keys, not malformed input
-        v, n = r.choice([(4, 20), (4, 20), (5, 32), (6, 32), (3, 16), (9, r.choice([0, 1, 8, 19, 21, 40]))])
+        v, n = r.choice([(4, 20), (4, 20), (5, 32), (6, 32), (3, 16), (9, r.choice([1, 8, 19, 21, 40]))])
         return bytes([v]) + bytes(r.getrandbits(8) for _ in range(n))
     if t in (11, 21, 22):
         pool_ = {11: [1, 2, 3, 4, 7, 8, 9, 10, 11, 12, 13], 21: [1, 2, 3, 8, 9, 10, 11], 22: [0, 1, 2, 3]}[t]
